@@ -58,6 +58,7 @@ type Contract struct {
 	SpecName  string   // name under which an assumed pure function can be applied inside specs
 	Split     *SplitSpec
 	Ats       []*AtClause
+	Assumes   []Clause
 }
 
 // AtClause: an intermediate assertion or rewrite attached to a program point
@@ -119,7 +120,7 @@ type ContractSet struct {
 
 var keywords = map[string]bool{"spec": true, "global": true, "func": true, "assume": true, "props": true, "requires": true,
 	"ensures": true, "modifies": true, "inline": true, "loop": true, "lemma": true, "panics": true, "trusted": true,
-	"nosafety": true, "pure": true, "uf": true, "specname": true, "split": true, "at": true, "replay": true, "remainder": true, "sweep": true, "bound": true}
+	"nosafety": true, "pure": true, "uf": true, "specname": true, "split": true, "at": true, "assumes": true, "replay": true, "remainder": true, "sweep": true, "bound": true}
 
 var labelRe = regexp.MustCompile(`^\[([A-Za-z0-9_.\-]+)\]\s*`)
 
@@ -267,6 +268,14 @@ func parseContractFile(path string, cs *ContractSet) error {
 				return fmt.Errorf("%s:%d: clause %q outside a func block", path, l.line, kw)
 			}
 			switch kw {
+			case "assumes":
+				// an assumption about a dependency, stated on the function under
+				// proof (listed as trusted; callers do not have to establish it)
+				cl, err := mkClause(rest, l.line)
+				if err != nil {
+					return err
+				}
+				cur.Assumes = append(cur.Assumes, cl)
 			case "requires", "ensures", "panics", "bound":
 				if kw == "panics" {
 					rest = strings.TrimSpace(strings.TrimPrefix(rest, "when"))
